@@ -20,7 +20,8 @@ RULE = ("Kernel level: Hypothesis draws series (9 classes, n 4..400) x gap patte
         "grid with -inf cells, p or none; every pixel must equal the kernel-level oracle with lambda=10**sg and the result "
         "dims are the non-time dims followed by time. Non-trivial: not (no gaps and lambda in {10, 10^-0.5} and n=5); "
         "distinct by content hash. "
-        " Added after the fourth seeded round: Float series carry valid cells a hair away from the nodata value (one ulp .. 0.5).")
+        " Added after the fourth seeded round: Float series carry valid cells a hair away from the nodata value (one ulp .. 0.5). "
+        " Added after the fifth seeded round: Accessor cases carry an unrelated nodata attribute; generic 'history' sub-check for whits.")
 ASSUME = ["LAPACK banded Cholesky as reference solver", "tie rule / fragility rule of DESIGN 2.5 / 2.7"]
 
 
